@@ -33,14 +33,32 @@ func runOrderCase(c orderCase) (Observation, Prediction, string) {
 	}
 	h, err := plugins.BuildChain(pc, terminal())
 	if err != nil {
+		for _, e := range c.Chain {
+			if e.Kind == "custom-auth" && edgeKey(e.Key) {
+				// a factory may refuse a whitespace-only / whitespace-padded key: then the
+				// configuration is not an accepted one and there is nothing to observe
+				return Observation{}, pred, refused
+			}
+		}
 		return Observation{}, pred, "a chain of valid elements did not build: " + err.Error()
 	}
 	obs := Run(h, c.Req)
 	return obs, pred, Diff(obs, pred)
 }
 
+// refused is returned by runOrderCase instead of a disagreement when the configuration was
+// legitimately not accepted.
+const refused = "\x00refused"
+
 func classify(c orderCase, p Prediction) (nontrivial bool, labels []string) {
 	labels = append(labels, fmt.Sprintf("len=%d", len(c.Chain)), "route="+c.Route)
+	seenClass := map[string]bool{}
+	for _, e := range c.Chain {
+		if e.Kind == "custom-auth" && !seenClass[keyClass(e.Key)] {
+			seenClass[keyClass(e.Key)] = true
+			labels = append(labels, keyClass(e.Key))
+		}
+	}
 	if p.RejectAt >= 0 {
 		pb, pa, ab, _ := Witnesses(c.Chain, p.RejectAt)
 		labels = append(labels, "rejected-by-"+c.Chain[p.RejectAt].Kind)
@@ -104,7 +122,7 @@ func TestC17OrderEnumerated(t *testing.T) {
 		"rejecter never run, client gets 401/413 and only the response marks of earlier plugins; non-trivial = rejection with a probe on each side, or accepted with >= 2 position-observable elements", maxLen))
 	var rc orderCase
 	if lab.ReplayCase(name, &rc) {
-		if _, _, d := runOrderCase(rc); d != "" {
+		if _, _, d := runOrderCase(rc); d != "" && d != refused {
 			lab.Violation(t, name, rc, "%s", d)
 		}
 		return
@@ -122,7 +140,7 @@ func TestC17OrderEnumerated(t *testing.T) {
 				obs, pred, d := runOrderCase(c)
 				nt, labels := classify(c, pred)
 				sub.Case(c, nt, labels...)
-				if d != "" {
+				if d != "" && d != refused {
 					lab.Violation(t, name, c, "chain %v request %+v: %s (observed %+v)", c.Chain, c.Req, d, obs)
 				}
 			}
@@ -149,7 +167,7 @@ func genValidElem(rt *rapid.T, withProbe bool) Elem {
 	case w < 34 && withProbe:
 		return Elem{Kind: "probe", Style: style & 2}
 	case w < 47:
-		return Elem{Kind: "custom-auth", Key: rapid.SampledFrom([]string{"alpha", "beta"}).Draw(rt, "key"), Style: style & 6}
+		return Elem{Kind: "custom-auth", Key: genKey(rt), Style: style & 6}
 	case w < 60:
 		return Elem{Kind: "size_limit", Max: rapid.SampledFrom([]int{0, 16, 100}).Draw(rt, "max"), Style: style & 5}
 	case w < 74:
@@ -160,6 +178,14 @@ func genValidElem(rt *rapid.T, withProbe bool) Elem {
 		return Elem{Kind: "logging", Style: style & 2}
 	}
 	return Elem{Kind: "gzip"}
+}
+
+// genKey draws a configured apiKey: ordinary or (40%) one of the unusual non-empty keys.
+func genKey(rt *rapid.T) string {
+	if rapid.IntRange(0, 9).Draw(rt, "unusual_key") < 4 {
+		return rapid.SampledFrom(unusualKeys).Draw(rt, "key")
+	}
+	return rapid.SampledFrom(ordinaryKeys).Draw(rt, "key")
 }
 
 func genReq(rt *rapid.T) Req {
@@ -175,7 +201,7 @@ func genReq(rt *rapid.T) Req {
 func genRejecter(rt *rapid.T) Elem {
 	style := rapid.IntRange(0, 7).Draw(rt, "rstyle")
 	if rapid.Bool().Draw(rt, "auth") {
-		return Elem{Kind: "custom-auth", Key: rapid.SampledFrom([]string{"alpha", "beta"}).Draw(rt, "key"), Style: style & 6}
+		return Elem{Kind: "custom-auth", Key: genKey(rt), Style: style & 6}
 	}
 	return Elem{Kind: "size_limit", Max: rapid.SampledFrom([]int{16, 100}).Draw(rt, "max"), Style: style & 5}
 }
@@ -222,8 +248,8 @@ func genReqFor(rt *rapid.T, chain []Elem) Req {
 	// pass the other kind of rejecter, fail the target
 	if target.Kind == "custom-auth" {
 		rq.Body = rapid.SampledFrom([]int{0, 4}).Draw(rt, "small_body")
-		other := map[string][]string{"alpha": {"beta", "wrong", ""}, "beta": {"alpha", "wrong", ""}}[target.Key]
-		rq.APIKey = rapid.SampledFrom(other).Draw(rt, "bad_key")
+		// absent, or a different key (near misses of the configured key first)
+		rq.APIKey = rapid.SampledFrom(append([]string{"", ""}, differentKeys(target.Key)...)).Draw(rt, "bad_key")
 	} else {
 		rq.Body = target.Max + rapid.SampledFrom([]int{1, 24, 150}).Draw(rt, "over")
 		for _, i := range rejecters {
@@ -238,8 +264,8 @@ func genReqFor(rt *rapid.T, chain []Elem) Req {
 // TestC17OrderSampled samples chains of length 4-5 (per-instance keys and limits, both construction
 // routes, rendering styles).
 func TestC17OrderSampled(t *testing.T) {
-	sub := lab.Sub("order-gating-sampled", "rapid: chains of length 4-5 over the seven kinds with per-instance apiKey in {alpha,beta}, max_request_body in {default,16,100}, "+
-		"YAML rendering styles (block/flow, quoted/plain, int/float) or hand-built Go maps typed as yaml.v3 delivers them (50/50); requests: X-API-Key in {alpha,beta,wrong,absent}, body 0/4/40/200, "+
+	sub := lab.Sub("order-gating-sampled", "rapid: chains of length 4-5 over the seven kinds with per-instance apiKey in {alpha,beta} or (40%) an unusual non-empty key (whitespace-only, whitespace-padded, interior spaces, 2 KiB, non-ASCII), max_request_body in {default,16,100}, "+
+		"YAML rendering styles (block/flow, quoted/plain, int/float) or hand-built Go maps typed as yaml.v3 delivers them (50/50); requests: X-API-Key exact / absent / a near miss of the configured key (trimmed, padded, upper-cased, shortened) set verbatim on the *http.Request, body 0/4/40/200, "+
 		"Accept-Encoding gzip or not, client-sent mark; same oracle as the enumeration; non-trivial = rejection with >= 1 probe on each side of the rejecting plugin, or accepted with >= 2 position-observable elements")
 	sub.NontrivialFloor(0.50)
 	sub.Floor("reject-between-probes", 0.10)
@@ -255,8 +281,11 @@ func TestC17OrderSampled(t *testing.T) {
 		c := orderCase{Chain: chain, Req: genReqFor(rt, chain), Route: rapid.SampledFrom([]string{"yaml", "go"}).Draw(rt, "route")}
 		obs, pred, d := runOrderCase(c)
 		nt, labels := classify(c, pred)
+		if d == refused {
+			nt, labels = false, append(labels, "edge-key-config-refused")
+		}
 		sub.Case(c, nt, labels...)
-		if d != "" {
+		if d != "" && d != refused {
 			rt.Fatalf("chain %v request %+v route %s: %s (observed %+v)", c.Chain, c.Req, c.Route, d, obs)
 		}
 	})
